@@ -288,8 +288,10 @@ def coq_expr(case, obs):
         B = falib.coq_enfa(case["fb"], si)
         R = falib.coq_enfa(obs["out"], si)
         R2 = falib.coq_enfa(obs["out2"], si)
-        return ("(enfa_equiv %s %s FUEL, judge %s %s, judge %s %s, dfa_b %s && is_reduced_b %s FUEL, dfa_b %s && is_reduced_b %s FUEL, trim_b %s && trim_b %s)"
-                % (A, B, A, R, B, R2, R, R, R2, R2, R, R2))
+        # last component: the proved model of minimize (Model/Minimize.v) has as many states, transitions and final states as the result
+        MM = "minimize_model_agrees %s %s" % (A, R) if case["fa"].get("kind") == "dfa" else "true"
+        return ("(enfa_equiv %s %s FUEL, judge %s %s, judge %s %s, dfa_b %s && is_reduced_b %s FUEL, dfa_b %s && is_reduced_b %s FUEL, trim_b %s && trim_b %s, %s)"
+                % (A, B, A, R, B, R2, R, R, R2, R2, R, R2, MM))
     if op in ("is_equivalent_to", "eq"):
         B = falib.coq_enfa(case["fb"], si)
         return "(enfa_equiv %s %s FUEL)" % (A, B)
@@ -385,7 +387,7 @@ def judge_case(ctx, case, obs, mv):
                                                   "hashseed": obs.get("_hs")})
         return
     if op == "minimize_pair":
-        eq, j1, j2, red1, red2, trim = mv
+        eq, j1, j2, red1, red2, trim, mm = mv
         if eq is None or j1 == "VFuel" or j2 == "VFuel":
             return
         if eq[1] and j1 == "VEq" and j2 == "VEq" and red1 and red2 and trim:
@@ -399,6 +401,11 @@ def judge_case(ctx, case, obs, mv):
             ctx.fail("minimize-not-canonical", case, {"impl_out": obs["out"], "impl_out2": obs["out2"]})
         elif obs["equiv"] != eq:
             ctx.fail("is_equivalent_to", case, {"impl": obs["equiv"], "model": eq})
+        elif mm is not True:
+            # the result is certified language-equal, deterministic and reduced, yet its size differs from the proved model's
+            ctx.fail("minimize-model", case, {"impl_out": obs["out"]}, correspondence_only=True)
+        elif case["fa"].get("kind") == "dfa":
+            ctx.dist["minimize_pair:same size as the proved model of minimize (isomorphic by C02_minimize_canonical)"] += 1
         return
     if op in QUERIES:
         if obs["bool"] != mv:
@@ -584,3 +591,70 @@ def make_name_collision_predicate(module):
             return False
         return not sub.failures
     return pred
+
+
+# ---- search stage for the partition refinement: many mid-sized DFAs, pre-filtered in Python; only the suspects go to the certified judge ----
+def _trim_minimal_count(spec):
+    """number of states of the minimal trim DFA of a deterministic spec (independent Moore refinement)"""
+    vk = falib.vkey
+    delta = {(vk(s), a): vk(t) for s, a, t in spec["trans"]}
+    syms = list(spec["symbols"])
+    reach, todo = set(), [vk(x) for x in spec["starts"]]
+    while todo:
+        q = todo.pop()
+        if q in reach:
+            continue
+        reach.add(q)
+        todo += [delta[(q, a)] for a in syms if (q, a) in delta]
+    finals = {vk(x) for x in spec["finals"]} & reach
+    co, changed = set(finals), True
+    while changed:
+        changed = False
+        for (q, a), t in delta.items():
+            if q in reach and t in co and q not in co:
+                co.add(q)
+                changed = True
+    live = reach & co
+    cls = {q: (q in finals) for q in live}
+    while True:
+        sig = {q: (cls[q], tuple(cls.get(delta.get((q, a))) for a in syms)) for q in live}
+        if len(set(sig.values())) == len(set(cls.values())):
+            return len(set(sig.values()))
+        cls = sig
+
+
+def _accepts(spec, w):
+    vk = falib.vkey
+    delta = {(vk(s), a): vk(t) for s, a, t in spec["trans"]}
+    cur = [vk(x) for x in spec["starts"]]
+    if len(cur) != 1:
+        return False
+    q = cur[0]
+    for a in w:
+        q = delta.get((q, a))
+        if q is None:
+            return False
+    return q in {vk(x) for x in spec["finals"]}
+
+
+def hopcroft_search(case):
+    import random
+    rng = random.Random(case["seed"])
+    suspects, tried = [], 0
+    for _ in range(case["count"]):
+        spec = falib.rand_big_dfa(rng)
+        tried += 1
+        try:
+            x = falib.extract_fa(falib.build_fa(spec).minimize())
+        except Exception:
+            suspects.append(spec)
+        else:
+            k = len(spec["symbols"])
+            ws = falib.words_upto(spec["symbols"], 7 if k == 2 else 5)
+            det = len({(falib.vkey(s), a) for s, a, t in x["trans"]}) == len(x["trans"]) and all(a is not None for s, a, t in x["trans"])
+            t_count = _trim_minimal_count(spec)
+            if not det or any(_accepts(spec, w) != _accepts(x, w) for w in ws) or not (t_count <= len(x["states"]) <= t_count + 1):
+                suspects.append(spec)
+        if len(suspects) >= 3:
+            break
+    return {"tried": tried, "suspects": suspects}
